@@ -53,6 +53,8 @@ def run_case(name, lines, harness=None, leaks=False):
         elif l.startswith("COV "):
             _, k, n = l.split()
             r.cov[k] = int(n)
+    if "ENVtmo" in r.mon:      # a hypothesis of a theorem evaluated on the log, not a property monitor
+        r.envbad.append("ENVBAD " + r.mon.pop("ENVtmo"))
     last = out.strip().splitlines()[-1].split()[0] if out.strip() else "EMPTY"
     r.end = last
     return r
